@@ -57,3 +57,10 @@ CLAIMED["C13"] = (
     _TRUST + " The MH agent is the stdlib mailbox.MH; the harness owns the folder mtime ('the mtime has advanced' is made true after each delivery).",
     "DESIGN.md section 4 C13",
 )
+CLAIMED["C19"] = (
+    "exploration",
+    "property-based testing: Hypothesis-generated client byte streams x segmentations (plus exhaustive 1- and 2-cut segmentations of canonical streams) through the real IMAPClient.start()/POP3Client.start(); oracle = independent reference tokenizer (lines + literals by octet count) compared with the frames handed to the user process, and byte equality for the server->client relay",
+    "Generated streams of commands with (non-)synchronising literals, look-alike literal headers, empty lines and over-limit sizes under generated and exhaustively enumerated segmentations, with a lowered and the real MAX_INPUT_SIZE; the relayed command list, '+' continuations, BADs and resynchronisation after every refusal are compared with a reference tokenizer; response streams with long CRLF-free runs are relayed through msgs_to_client and compared byte for byte.",
+    _TRUST + " Front-ends are driven in-process with fed StreamReaders whose limits are read from the code; no sockets/TLS.",
+    "DESIGN.md section 4 C19",
+)
